@@ -20,7 +20,7 @@ def sequence_handle_none(fn: Callable[..., bool]) -> Callable[..., bool]:
 
     @functools.wraps(fn)
     def inner(sequence: Sequence, *args, **kwargs) -> bool:
-        sequence = tuple(filter(None, sequence))
+        sequence = tuple(value for value in sequence if value is not None)
         return fn(sequence, *args, **kwargs)
 
     return inner
